@@ -115,12 +115,13 @@ def check(rep, tier):
     # a study of several repetitions on ONE object (sequential): the reported trajectory is the last repetition's
     for dim in (["spatial_1D"] if tier == "quick" else ["spatial_1D", "homogeneous", "spatial_2D"]):
         prog = dict(start=10, end=-50, rate=2.0 / 60, holds=[], t_tot=3600.0, dt=1.0)
-        h, d = (0.01, 0.01) if dim == "homogeneous" else (0.05, 0.05)
-        S = sr.make(dim=dim, conf="shelf", height=h, diameter=d, K=200, prog=prog, Nrep=5)
+        h, d = (0.01, 0.01) if dim == "homogeneous" else ((0.05, 0.05) if dim == "spatial_1D" else (0.05, 0.1))
+        Kst, nrep = (300, 3) if dim == "spatial_2D" else (200, 5)      # 2D: wide vial (larger time step, the ~9800 saved steps cover the whole freezing)
+        S = sr.make(dim=dim, conf="shelf", height=h, diameter=d, K=Kst, prog=prog, Nrep=nrep)
         dt, _ = sr.step_info(S)
         if dim != "homogeneous":
-            prog["t_tot"] = float(int(dt * 9800)); S = sr.make(dim=dim, conf="shelf", height=h, diameter=d, K=200, prog=prog, Nrep=5)
-        rec = dict(label="%s/shelf study Nrep=5 sequential (last repetition reported)" % dim, dim=dim, conf="shelf", S=S, dt=dt, prog=prog, error=None, row=-1, study=True, must_complete=True)
+            prog["t_tot"] = float(int(dt * 9800)); S = sr.make(dim=dim, conf="shelf", height=h, diameter=d, K=Kst, prog=prog, Nrep=nrep)
+        rec = dict(label="%s/shelf study Nrep=%d sequential (last repetition reported)" % (dim, nrep), dim=dim, conf="shelf", S=S, dt=dt, prog=prog, error=None, row=-1, study=True, must_complete=True)
         try:
             with impl.quiet():
                 S.run(how="sequential")
